@@ -81,6 +81,7 @@ type guardSpec struct {
 	leanName string
 	vars     []string // free variables, in parameter order
 	varTypes []string
+	alias    map[string]string // `len(value)` -> a free variable
 }
 
 // methods that only read and write integer fields of their receiver: translated as functions from the
@@ -129,8 +130,11 @@ var regions = []regionSpec{
 }
 
 var guards = []guardSpec{
-	{"addInt", "dataStoreCommand", "VALUE_OVERFLOW", "addIntOverflowGuard", []string{"value", "delta"}, []string{"int64", "int64"}},
-	{"fieldAddInt", "dataStoreCommand", "VALUE_OVERFLOW", "fieldAddIntOverflowGuard", []string{"oldInt", "delta"}, []string{"int64", "int64"}},
+	{"addInt", "dataStoreCommand", "VALUE_OVERFLOW", "addIntOverflowGuard", []string{"value", "delta"}, []string{"int64", "int64"}, nil},
+	{"fieldAddInt", "dataStoreCommand", "VALUE_OVERFLOW", "fieldAddIntOverflowGuard", []string{"oldInt", "delta"}, []string{"int64", "int64"}, nil},
+	{"fnSetBit", "", "\"bit offset is not an integer or out of range\"", "setbitOffsetGuard", []string{"offset64"}, []string{"int64"}, nil},
+	{"fnSetRange", "", "\"string exceeds maximum allowed size\"", "setrangeSizeGuard", []string{"offset", "vlen"}, []string{"int64", "int"},
+		map[string]string{"len(value)": "vlen"}},
 }
 
 // ---------------------------------------------------------------- translation
@@ -300,6 +304,13 @@ func (ev *env) expr(e ast.Expr, want ty) (string, ty) {
 				a, t := ev.expr(x.Args[0], types["uint32"])
 				a = ev.resolve(a, t, types["uint32"], x.Pos())
 				return "(BitVec.reverse " + a + ")", types["uint32"]
+			}
+		}
+		if id, ok := x.Fun.(*ast.Ident); ok && id.Name == "len" && len(x.Args) == 1 {
+			if a, isId := x.Args[0].(*ast.Ident); isId {
+				if v, has := ev.alias["len("+a.Name+")"]; has {
+					return ln(v), ev.vars[v]
+				}
 			}
 		}
 		if id, ok := x.Fun.(*ast.Ident); ok {
@@ -919,6 +930,12 @@ func assignsConst(b *ast.BlockStmt, c string) bool {
 				}
 			}
 		}
+		// a constant given in double quotes is the text of an error reply: the body mentions a string literal containing it
+		if bl, ok := n.(*ast.BasicLit); ok && bl.Kind == token.STRING && strings.HasPrefix(c, "\"") {
+			if strings.Contains(bl.Value, strings.Trim(c, "\"")) {
+				found = true
+			}
+		}
 		return true
 	})
 	return found
@@ -973,7 +990,7 @@ func translateGuard(fd *ast.FuncDecl, g guardSpec, funcs map[string]*sig) (out s
 	if guard == nil || n != 1 {
 		return "", fmt.Errorf("%s: expected exactly one `if` guarding %s, found %d", g.fn, g.constant, n)
 	}
-	ev := &env{vars: map[string]ty{}, funcs: funcs, result: types["bool"], usedExt: map[string]bool{}}
+	ev := &env{vars: map[string]ty{}, funcs: funcs, result: types["bool"], usedExt: map[string]bool{}, alias: g.alias}
 	var params []string
 	for i, v := range g.vars {
 		ev.vars[v] = types[g.varTypes[i]]
@@ -983,6 +1000,15 @@ func translateGuard(fd *ast.FuncDecl, g guardSpec, funcs map[string]*sig) (out s
 	need := map[string]bool{}
 	collect := func(e ast.Node) {
 		ast.Inspect(e, func(n ast.Node) bool {
+			if ce, ok := n.(*ast.CallExpr); ok && len(ce.Args) == 1 {
+				if f, isId := ce.Fun.(*ast.Ident); isId && f.Name == "len" {
+					if a, isId := ce.Args[0].(*ast.Ident); isId {
+						if _, has := g.alias["len("+a.Name+")"]; has {
+							return false // read as a free variable
+						}
+					}
+				}
+			}
 			if id, ok := n.(*ast.Ident); ok {
 				need[id.Name] = true
 			}
@@ -1127,7 +1153,11 @@ func main() {
 		names = append(names, r.leanName)
 	}
 	for _, g := range guards {
-		fd, ok := decls[g.recv+"."+g.fn]
+		key := g.recv + "." + g.fn
+		if g.recv == "" {
+			key = g.fn
+		}
+		fd, ok := decls[key]
 		if !ok {
 			errs = append(errs, fmt.Sprintf("method %s.%s no longer exists", g.recv, g.fn))
 			continue
